@@ -26,6 +26,7 @@ RULES = {
     "R13.4": "no suspension point between snapshot and registration",
     "R13.5": "nothing is broadcast when the set did not change",
     "R13.6": "the subscription message is one frame: [type as u8] ++ topic bytes",
+    "R13.F": "foundation clauses re-evaluated as necessary conditions: " + ", ".join(['decoder']),
 }
 
 
@@ -106,7 +107,12 @@ def is_subs_lock(ev):
         isinstance(x, tuple) and x and x[0] == "field" and "Mutex<" in str(x[3]) and type_holds(_F[0], str(x[3]), "HashSet") for x in walk_expr(ev.args[0]))
 
 
+DEPENDS = ['decoder']     # foundation groups re-evaluated as necessary conditions (rules/found.py)
+
+
 def run(ctx, f, rep):
+    from . import found
+    found.import_groups(ctx, f, rep, 'C13', DEPENDS)
     _F[0] = f
     A = anchors(f)
     have = all(k in A for k in ("enum", "builder", "bcast"))
